@@ -264,7 +264,8 @@ from vf.usercode import make_user_code, scrambled_specs  # noqa: E402
 @st.composite
 def user_specs(draw):
     dim = draw(st.sampled_from([2, 3]))
-    coord = st.tuples(*[st.integers(-50, 200)] * dim)
+    # a small box makes neighbouring (and, halved, same-cell) positions likely
+    coord = st.tuples(*[draw(st.sampled_from([st.integers(-50, 200), st.integers(-3, 6)]))] * dim)
     n = draw(st.integers(1, 9))
     m = draw(st.integers(1, 8))
     pts = draw(st.lists(coord, min_size=n + m, max_size=n + m, unique=True))
@@ -290,6 +291,7 @@ def user_specs(draw):
             'stabs': [list(s) for s in stabs], 'stab_ops': stab_ops,
             'logicals_x': [logical() for _ in range(k)],
             'logicals_z': [logical() for _ in range(k)],
+            'coord_style': draw(st.sampled_from(['int', 'int', 'half', 'npint'])),
             'rseed': draw(st.integers(0, 2**31 - 1))}
 
 
@@ -374,7 +376,7 @@ def eval_case(case):
                 cnt[i] = cnt.get(i, 0) + 1
         shared = sum(1 for v in cnt.values() if v >= 2)
         labels = ['user', 'user-css' if info.get('css') else 'user-noncss',
-                  f'user-dim{case["dim"]}']
+                  f'user-dim{case["dim"]}', f"coords:{case.get('coord_style', 'int')}"]
         return {'fails': fails, 'nontrivial': shared >= 2, 'labels': labels}
 
     code = domain.build_from_case(case)
